@@ -163,17 +163,24 @@ impl Decoder {
             return Ok((flags, value));
         }
 
-        let mut power = 0;
+        let mut power: u32 = 0;
         loop {
             let byte = bytes_reader
                 .get_bytes(1)
                 .ok_or(DecodingError::UnexpectedFin)?[0] as usize;
 
+            let chunk = byte & 0x7F;
+
+            // The shift must neither exceed the integer width nor push set bits out.
+            if chunk != 0 && chunk.leading_zeros() < power {
+                return Err(DecodingError::IntegerOverflow);
+            }
+
             value = value
-                .checked_add((byte & 0x7F) << power)
+                .checked_add(chunk.checked_shl(power).unwrap_or(0))
                 .ok_or(DecodingError::IntegerOverflow)?;
 
-            power += 7;
+            power = power.saturating_add(7);
 
             if byte & 0x80 == 0 {
                 break;
